@@ -241,6 +241,19 @@ func calcPartialCompactionStart(slocs SegmentLocs, newDataSize uint64,
 	return compStartIdx, doCompact
 }
 
+// emptyStackLike returns a segmentStack without segments that has the
+// incarnation and, recursively, the child collections of the footer.
+func emptyStackLike(footer *Footer, options *CollectionOptions) *segmentStack {
+	ss := &segmentStack{options: options, refs: 1, incarNum: footer.incarNum}
+	for cName, childFooter := range footer.ChildFooters {
+		if ss.childSegStacks == nil {
+			ss.childSegStacks = make(map[string]*segmentStack)
+		}
+		ss.childSegStacks[cName] = emptyStackLike(childFooter, options)
+	}
+	return ss
+}
+
 func (s *Store) compact(footer *Footer, partialCompactStart int,
 	higher Snapshot, persistOptions StorePersistOptions) error {
 	startTime := time.Now()
@@ -263,10 +276,15 @@ func (s *Store) compact(footer *Footer, partialCompactStart int,
 
 		newSS, newBase = s.mergeSegStacks(footer, partialCompactStart, ssHigher)
 	} else {
-		newSS = footer.ss      // Safe as footer ref count is held positive.
-		if len(newSS.a) <= 1 { // No incoming data & 1 or fewer footer segments.
+		if footer.ss == nil || len(footer.ss.a) <= 1 {
+			// No incoming data & 1 or fewer footer segments.
 			return ErrNothingToCompact // no need to perform compaction.
 		}
+
+		// No incoming data: compact what the footer holds, together
+		// with all of its child collections.
+		newSS, newBase = s.mergeSegStacks(footer, partialCompactStart,
+			emptyStackLike(footer, footer.ss.options))
 	}
 
 	var frefCompact *FileRef
